@@ -53,7 +53,7 @@ CHECKS = {
    note="A cell is flagged only beyond 30 % + 5 standard errors, so oracle noise cannot raise an alarm. F10 (randomQ_5 cell 4) is a listed finding."),
  "C02": dict(category="exploration", design="DESIGN.md §5 C02",
    technique="exhaustive enumeration of grid combinations; every pair of cells against an independent Kronecker-sum composition of the factor matrices",
-   text="7 rotation grids x 12 direction grids x 3 radial grids x both modes x factors {1,2,0.5} (thorough: every N 4..20 / 2..13): all three full matrices are compared entry by entry with kron(position, I) + kron(I, rotation) built from the package's own factor getters, with f / f^2 on either family; symmetry, diagonal, positivity, stored entry order, volumes and row order of the grid array are checked.",
+   text="7 rotation grids x 12 direction grids x 3 radial grids x both modes x factors {1,2,0.5} (thorough: n_b up to 20, n_o up to 20): all three full matrices are compared entry by entry with kron(position, I) + kron(I, rotation) built from the package's own factor getters, with f / f^2 on either family; symmetry, diagonal, positivity, stored entry order, volumes and row order of the grid array are checked.",
    note="The factor matrices themselves are verified by C03-C06; this check is about composition only. Symmetry is asserted to 1e-12 relative (mirror-image faces are computed separately)."),
 
  "C07": dict(category="exploration", design="DESIGN.md §5 C07",
